@@ -98,6 +98,17 @@ def gen_specs(run):
             for o in x["witness"]:
                 o["r"] = o["r"][:-1]
         variant("witness T-1", False, t_minus)
+        # ... and of lower degree with commitments that were MADE from the short openings (commit() accepts 1..T blinding factors), so that only
+        # the degree is wrong; likewise one opening alone shorter than the others cannot be built (RangeWitness::init refuses it)
+        def t_minus_consistent(x, drop):
+            if T - drop < 1:
+                return False
+            for o in x["witness"]:
+                o["r"] = o["r"][:T - drop]
+            for c in x["commit"]:
+                c["r"] = c["r"][:T - drop]
+        variant("witness T-1, commitments made from the short openings", False, lambda x: t_minus_consistent(x, 1))
+        variant("witness of degree 1, commitments made from the short openings", False, lambda x: t_minus_consistent(x, T - 1) if T >= 3 else False)
         # openings swapped between positions
         def swap(x):
             if m < 2 or x["witness"][0] == x["witness"][1]:
